@@ -6,6 +6,13 @@ CLASSES = {
   'Node': dict(path='HeapBalancerSink.Node', fields={
     'load': 'int', 'index': 'int', 'downq': 'Node?', 'avg_load': 'int',
     'channel': 'Channel', 'endpoint': 'any'}),
+  'HeapBalancerSink': dict(path='HeapBalancerSink', bases=['LoadBalancerSink'], fields={
+    '_heap': 'list[Node]', '_size': 'int', '_downq': 'Node?', '_open': 'bool',
+    '_no_members': 'Channel'}),
+  'ChannelState': dict(file='scales/constants.py', path='ChannelState'),
+  'Int': dict(file='scales/constants.py', path='Int'),
+  'MessageProperties': dict(file='scales/constants.py', path='MessageProperties'),
+  'AsyncResult': dict(extern=True, path=None, fields={}, bases=[]),
   # any ClientMessageSink used as a member channel; its state is an opaque observable
   'Channel': dict(extern=True, path=None, fields={'state': 'int'}, bases=[]),
 }
@@ -25,6 +32,18 @@ PREDICATES = {
      'forall(k, 1, len(heap), let(x, heap[k], old(inheap(heap, x))), heap[k]) and '
      'forall_ref(r, Node, r.index == old(r.index) or old(inheap(heap, r)), r.index)'),
 }
+
+PREDICATES.update({
+  'HI_shape': (['s'], 'len(s._heap) == s._size + 1 and s._size >= 0'),
+  'HI_bij': (['s'], 'hbij(s._heap) and s._heap[0].index == 0 and allocated(s._heap[0])'),
+  'HI_ord': (['s'], 'forall(c, 2, s._size + 1, ordat(s._heap, c))'),
+  # per-instance node universe: a node with a non-negative index sits in the heap at that index;
+  # the sentinel (index 0) is never on the down list
+  'HI_nodes': (['s'],
+     'forall_ref(r, Node, implies(allocated(r) and r.index >= 0, r.index < len(s._heap) and s._heap[r.index] == r), r.index) and '
+     'forall_ref(r, Node, implies(allocated(r), r.downq != s._heap[0]), r.downq) and s._downq != s._heap[0]'),
+  'HeapInv': (['s'], 'HI_shape(s) and HI_bij(s) and HI_ord(s) and HI_nodes(s)'),
+})
 
 _SWAP_FRAME = [
   'len(heap) == old(len(heap))',
@@ -90,7 +109,7 @@ FUNCTIONS = {
       'implies(i >= 2, forall(c, 2, len(heap) - 1, implies(floor_div(c, 2) == i, hle(heap[floor_div(i, 2)], heap[c]))))',
     ],
     ensures=[
-      'len(heap) == old(len(heap))', 'hbij(heap)', 'perm_frame(heap)',
+      'len(heap) == old(len(heap))', 'hbij(heap)', 'perm_frame(heap)', 'heap[0] == old(heap[0])',
       'forall(c, 2, len(heap) - 1, ordat(heap, c))',
       'implies(old(i) == len(heap) - 1 and old(i) >= 2, ordat(heap, len(heap) - 1))',
       'implies(old(i != len(heap) - 1 and len(heap) - 1 >= 2 and ordat(heap, len(heap) - 1) and '
@@ -101,7 +120,7 @@ FUNCTIONS = {
     loops={0: dict(
       modifies=['list[Node].items', 'Node.index'],
       invariant=[
-        '1 <= i and i <= old(i)', 'len(heap) == old(len(heap))', 'hbij(heap)', 'perm_frame(heap)',
+        '1 <= i and i <= old(i)', 'len(heap) == old(len(heap))', 'hbij(heap)', 'perm_frame(heap)', 'heap[0] == old(heap[0])',
         'forall(c, 2, len(heap) - 1, implies(c != i, ordat(heap, c)))',
         'implies(i >= 2, forall(c, 2, len(heap) - 1, implies(floor_div(c, 2) == i, hle(heap[floor_div(i, 2)], heap[c]))))',
         # the last position: fixed if it is where we started, preserved if it was fine
@@ -115,6 +134,38 @@ FUNCTIONS = {
       ],
       decreases='i',
     )},
+    props=['C03'],
+  ),
+
+  # ---------------------------------------------------------------- balancer
+  'HeapBalancerSink._OnNodeDown': dict(
+    cls='HeapBalancerSink', params={'node': 'Node'}, returns='AsyncResult',
+    requires=['HeapInv(self)'],
+    ensures=['HeapInv(self)', 'self._size >= old(self._size)',
+             'forall(k, 1, old(self._size) + 1, self._heap[k] == old(self._heap[k]))',
+             'self._downq == old(self._downq)'],
+    modifies=[],
+    drop=['AsyncResult'],
+    props=['C03'],
+  ),
+
+  'HeapBalancerSink.__Get': dict(
+    cls='HeapBalancerSink', returns='Node',
+    locals={'n': 'Node?', 'm': 'Node?', 'o': 'Node?'},
+    requires=['HeapInv(self)', 'self._size >= 1'],
+    ensures=[
+      'HeapInv(self)', 'self._size >= old(self._size)',
+      'result == self._heap[1]',
+      'result.channel.state == ChannelState.Open or result.load >= 0',
+    ],
+    modifies=['Node.load', 'Node.index', 'Node.downq', 'list[Node].items', 'HeapBalancerSink._downq'],
+    loops={
+      0: dict(invariant=['HeapInv(self)', 'self._size >= old(self._size)', 'self._size >= 1'],
+              modifies=['Node.load', 'Node.index', 'Node.downq', 'list[Node].items', 'HeapBalancerSink._downq']),
+      1: dict(invariant=['HeapInv(self)', 'self._size >= old(self._size)', 'self._size >= 1',
+                         'implies(n is not None, n != self._heap[0])', 'implies(m is not None, m != self._heap[0])'],
+              modifies=['Node.load', 'Node.index', 'Node.downq', 'list[Node].items', 'HeapBalancerSink._downq']),
+    },
     props=['C03'],
   ),
 }
